@@ -202,15 +202,17 @@ var registry = []propertySpec{
 	},
 	{
 		ID:    "C18",
-		Files: map[string][]string{"html": {"zz_verif_html_lib.go", "zz_verif_c18.go"}},
+		Files: map[string][]string{"html": {"zz_verif_html_lib.go", "zz_verif_c18.go"}, "q": {"zz_verif_c18.go"}},
 		Harnesses: []harnessSpec{
+			{Name: "VerifC18_Query", Pkg: "q", Quick: tierSpec{Cases: 24}, Thorough: tierSpec{Cases: 24}, Sched: -1,
+				Bounds: "8 queries whose results carry file content (strings, objects, nodes, lists) x 3 tainted values (given name, place, note) with one symbolic byte, written by the html formatter of 'gedcom query'"},
 			{Name: "VerifC18_Publish", Pkg: "html", Quick: tierSpec{Cases: 12}, Thorough: tierSpec{Cases: 12}, Sched: -1,
 				Bounds: "a 3-person / 1-family / 1-source document in which one of 12 value kinds (given name, surname, place, date phrase, note, source title, source property, event value, individual pointer, sex, name type, second name) carries the token Ta<c>nt with c any printable ASCII byte (symbolic); all page groups, show mode; every output byte that depends on c must provably not be one of < > \" ' &"},
 			{Name: "VerifC18_Diff", Pkg: "html", Quick: tierSpec{Cases: 5}, Thorough: tierSpec{Cases: 5}, Sched: -1,
 				Bounds: "the html diff report of the tainted document against the clean one for 5 value kinds"},
 		},
 		Assumptions: []string{"one tainted byte at a time; html.EscapeString is modelled byte-wise (validated against the real function)"},
-		Outside:     "JavaScript / URL contexts (location.href is checked as an attribute only), multi-byte sequences forming an entity, two tainted values at once, html query output (C15 harness), well-nestedness tokenising",
+		Outside:     "JavaScript / URL contexts (location.href is checked as an attribute only), multi-byte sequences forming an entity, two tainted values at once, well-nestedness tokenising",
 	},
 	{
 		ID:    "C17",
@@ -231,17 +233,17 @@ var registry = []propertySpec{
 			{Name: "VerifC05_Order", Quick: tierSpec{Cases: 3}, Thorough: tierSpec{Cases: 3}, Sched: -1,
 				Bounds: "lemma used by the other harnesses of this check (VsLemma): before/after by Date.Years is calendar order, for two independent dates of every granularity, all days of years 1..9999"},
 			{Name: "VerifC20_Parents", Quick: tierSpec{Cases: 18}, Thorough: tierSpec{Cases: 18}, Sched: -1,
-				Bounds: "one parent and the child with exact-day births: day 1..28 and year 1700..1990 symbolic, month one of Jan/Jun/Dec by choice; the other parent born 1650 / 1995 / without a date; either parent symbolic; 3 record orders"},
+				Bounds: "one parent and the child with exact-day births: day 1..28 symbolic, month one of Jan/Jun/Dec and year (parent 1800/1801, child 1800/1801/1830) by choice; the other parent born 1650 / 1995 / without a date; either parent symbolic; 3 record orders"},
 			{Name: "VerifC20_Siblings", Quick: tierSpec{Cases: 2}, Thorough: tierSpec{Cases: 2}, Sched: -1,
-				Bounds: "two siblings with symbolic exact-day births (years 1800..1990), distance 0, 5..268 or >= 280 days; both orders of the CHIL lines"},
+				Bounds: "two siblings with exact-day births: day 1..28 symbolic, month Jan/Jun/Dec and year 1803..1805 by choice; distance 0, 5..268 or >= 280 days; both orders of the CHIL lines"},
 			{Name: "VerifC20_Marriage", Quick: tierSpec{Cases: 1}, Thorough: tierSpec{Cases: 1}, Sched: -1, Solver: "cvc5",
-				Bounds: "husband's birth and marriage as symbolic exact days, age at marriage at least 10 days away from 16 and 100 years"},
+				Bounds: "husband born in 1800 and married in 1810/1816/1850/1900/1903 (by choice), days 1..28 symbolic, months Jan/Jun/Dec by choice; age at marriage at least 10 days away from 16 and 100 years"},
 			{Name: "VerifC20_Individual", Quick: tierSpec{Cases: 4}, Thorough: tierSpec{Cases: 4}, Sched: -1, Solver: "cvc5",
-				Bounds: "birth and death as symbolic exact days; extra unparsable dates / SEX lines by case"},
+				Bounds: "birth in 1800 and death in 1799/1800/1860/1900/1904 (by choice), days 1..28 symbolic, months by choice; extra unparsable dates / SEX lines by case"},
 			{Name: "VerifC20_Spouses", Quick: tierSpec{Cases: 16}, Thorough: tierSpec{Cases: 16}, Sched: -1,
 				Bounds: "all 4x4 combinations of husband / wife SEX values (M, F, missing, U)"},
 		},
-		Assumptions: []string{"exact dates, days 1..28 (so that every (day, month) is valid in every year), months Jan/Jun/Dec", "ages are float64 computations: modelled as reals with a sound rounding operator; the margins keep the verdicts away from the rounding slack"},
+		Assumptions: []string{"exact dates, days 1..28 (so that every (day, month) is valid in every year), months Jan/Jun/Dec, years by choice (a symbolic year makes every age computation a div/mod/saturating-multiply query that takes seconds)", "ages are float64 computations: modelled as reals with a sound rounding operator; the margins keep the verdicts away from the rounding slack"},
 		Outside:     "inexact dates, dates within the margins, more than 4 people, several families per person, the formatted age inside warning texts",
 	},
 	{
@@ -270,8 +272,8 @@ var registry = []propertySpec{
 				Bounds: "both operands are strings of 0..2 (thorough 0..3) symbolic bytes over digits, '.', '-', '+', blank, tab, b/B/z/Z; all six operators through the real BinaryExpr against a reference order written from the statement (numbers as exact rationals)"},
 			{Name: "VerifC16_OperatorsParsed", Pkg: "q", Quick: tierSpec{Cases: 29}, Thorough: tierSpec{Cases: 29}, Sched: -1,
 				Bounds: "28 concrete operand pairs in the spellings outside the symbolic alphabet (exponents, hex, underscores, inf, nan, long mantissas, non-ASCII) and one symbolic byte per side, written as the query \"l\" op \"r\" through tokenizer, parser and engine"},
-			{Name: "VerifC16_Functions", Pkg: "q", Quick: tierSpec{Cases: 25 * 5}, Thorough: tierSpec{Cases: 25 * 5}, Sched: -1,
-				Bounds: "25 queries (accessor chains over Document/Individual/Family/Name, First/Last with a symbolic digit 0..9, Length, Only with a symbolic literal, Combine, NodesWithTagPath, objects, variables) on family documents of 0..4 people whose name bytes are symbolic; JSON of the result against JSON of the value computed with the Go API"},
+			{Name: "VerifC16_Functions", Pkg: "q", Quick: tierSpec{Cases: 26 * 5}, Thorough: tierSpec{Cases: 26 * 5}, Sched: -1,
+				Bounds: "26 queries (accessor chains over Document/Individual/Family/Name, First/Last with a symbolic digit 0..9, Length, Only with a symbolic literal, Combine, NodesWithTagPath, objects, variables) on family documents of 0..4 people whose name bytes are symbolic; JSON of the result against JSON of the value computed with the Go API"},
 			{Name: "VerifC16_Algebra", Pkg: "q", Quick: tierSpec{Cases: 7 * 4}, Thorough: tierSpec{Cases: 7 * 4}, Sched: -1, MapOrder: true,
 				Bounds: "7 list expressions x 5 following stages x 0..3 people: variable inlining, repeatability (under 4 map iteration orders), Combine(E,E) doubling, Only(p)/Only(not p) partition and order"},
 		},
@@ -282,8 +284,8 @@ var registry = []propertySpec{
 		ID:    "C10",
 		Files: map[string][]string{"": {"zz_verif_lib.go", "zz_verif_c10.go"}},
 		Harnesses: []harnessSpec{
-			{Name: "VerifC10_Merge", Quick: tierSpec{Cases: 48}, Thorough: tierSpec{Cases: 48}, Sched: -1,
-				Bounds: "a 3-person family merged with 8 variants of a second document (identical copy, renumbered copy, edited renumbered copy with a dropped and an added person and a changed fact, disjoint family, disjoint family with clashing pointers, empty document, copies in which one byte of a given name is symbolic) x default / strict (0.99) / lenient (0.1) thresholds x both argument orders; the real Compare pipeline runs under the deterministic scheduler"},
+			{Name: "VerifC10_Merge", Quick: tierSpec{Cases: 54}, Thorough: tierSpec{Cases: 54}, Sched: -1,
+				Bounds: "a 3-person family merged with 9 variants of a second document (identical copy, renumbered copy, renumbered copy with more detail under facts that the base only mentions, edited renumbered copy with a dropped and an added person and a changed fact, disjoint family, disjoint family with clashing pointers, empty document, copies in which one byte of a given name is symbolic) x default / strict (0.99) / lenient (0.1) thresholds x both argument orders; the real Compare pipeline runs under the deterministic scheduler"},
 		},
 		Assumptions: []string{"every person carries a unique NOTE so that it can be followed through the merge; EqualityMergeFunction for the other records"},
 		Outside:     "documents with more than 4 people per side or several families per person, other merge functions, the query function (C15/C16 harnesses call it on 2 documents), schedules other than the deterministic one (C11)",
@@ -292,8 +294,8 @@ var registry = []propertySpec{
 		ID:    "C11",
 		Files: map[string][]string{"": {"zz_verif_lib.go", "zz_verif_c11.go"}},
 		Harnesses: []harnessSpec{
-			{Name: "VerifC11_Compare", Quick: tierSpec{Cases: 8 * 4 * 2}, Thorough: tierSpec{Cases: 8 * 4 * 6}, Sched: 1, Invariant: []string{"matching"},
-				Bounds: "8 input scenarios (renumbered edited copy, shared pointers, duplicated unique id, identical twins, empty sides, crossed unique ids, a symbolic name byte) x Jobs in {0,1,2,3} x thresholds (quick: default and a symbolic MinimumWeightedSimilarity in [0,1]; thorough also 0/0, 1/1, 0/1, 1/0); every schedule of the goroutine pipeline with at most 1 pre-emption at channel, sync.Map and mutex operations"},
+			{Name: "VerifC11_Compare", Quick: tierSpec{Cases: 48}, Thorough: tierSpec{Cases: 176}, Sched: 1, Invariant: []string{"matching"},
+				Bounds: "8 input scenarios (renumbered edited copy, shared pointers, duplicated unique id, identical twins, empty sides, crossed unique ids, a symbolic name byte) x Jobs in {0,1,2,3} with the default thresholds, Jobs in {0,1} with a symbolic MinimumWeightedSimilarity in [0,1] (thorough also Jobs 0..3 x 0/0, 1/1, 0/1, 1/0); every schedule of the goroutine pipeline with at most 1 pre-emption at channel, sync.Map and mutex operations"},
 		},
 		Assumptions: []string{"goroutines are interleaved at channel, sync.Map, mutex, WaitGroup and Sleep operations only (sequentially consistent memory between them)"},
 		Outside:     "GOMAXPROCS, true parallelism and weak-memory effects, Jobs > 3, lists of more than 4 individuals, the 'gedcom diff' process",
